@@ -107,6 +107,9 @@ def signature(m):
     return {"branch": br, "kind": kind, "detail": detail}
 
 
+WIRE_FAMILIES = ("string", "keys", "list", "hash", "set", "zset", "stream")
+
+
 def run_b2(family, progs, steps, seed, nproc=8, tool="ksgen", extra=()):
     """Generate `progs` programmes split over nproc generator processes, validate each trace file with TLC in
     parallel. Returns dict(mismatches=[(record, trace_path)], labels=set, events=int, programmes=int)."""
@@ -118,6 +121,11 @@ def run_b2(family, progs, steps, seed, nproc=8, tool="ksgen", extra=()):
         path = os.path.join(d, "%s-%d.ndjson" % (family, i))
         cmd = [gen, "-family", family, "-seed", str(seed * 1000 + i), "-progs", str(per), "-steps", str(steps),
                "-out", path, "-pbase", str(i * per)] + list(extra)
+        if tool == "ksgen" and "-mode" not in extra and i % 2 == 1 and family in WIRE_FAMILIES:
+            # every other generator process sends its programmes through the real connection handler (net.Pipe, pipelined in
+            # random batches): arguments then arrive in the parser's buffers, replies are serialised by the handler - what a
+            # value looks like in memory (spare capacity, aliasing with a read buffer) is part of what is tested
+            cmd += ["-mode", "pipe", "-nononce"]
         jobs.append((path, cmd))
     for path, cmd in jobs:
         p = subprocess.run(cmd, stdout=subprocess.PIPE, stderr=subprocess.STDOUT, text=True, timeout=600)
